@@ -6,6 +6,7 @@ package main
 // caller data is snapshotted before and after; the cached DOM is snapshotted before and after.
 
 import (
+	"io/fs"
 	"bytes"
 	"context"
 	"fmt"
@@ -57,7 +58,16 @@ var c10Files = map[string]string{
 	"vhtml.vuego": `<div v-html="h"></div><p v-text="h"></p><pre v-pre>{{ a }}</pre><div class="box" id="main" v-html="a"></div>` +
 		`<p class="k" id="t" data-q="1" lang="en" v-text="b"></p><section class="s" title="t" v-html="b"></section><q class="c" id="i" lang="x" data-a="1" v-text="a"></q>`,
 	"map.vuego": `<i v-for="v in one">{{ v }}</i><p>{{ m.k }} {{ m.l[1] }}</p>`,
+	// a <template v-html> (evaluated in place on the node it is written on) in a file WITHOUT any include, followed by interpolated siblings
+	"tplhtml.vuego": `<main><h1>{{ a }}</h1><template v-html="h"></template><footer>note {{ b }}</footer></main>`,
+	// registered shorthand component tags INSIDE an included component (rewritten to include tags when the component is parsed)
+	"shorthand.vuego":          `<template include="panel.vuego" :t="a"></template><ui-badge :label="b"></ui-badge><i v-for="x in items"><template include="panel.vuego" :t="x"></template></i>`,
+	"panel.vuego":              `<div class="panel"><ui-badge :label="t"></ui-badge><span>{{ t }}</span><ui-badge label="fixed"></ui-badge></div>`,
+	"components/UiBadge.vuego": `<b class="badge">{{ label }}</b>`,
 }
+
+// c10Engine: the engine every C09/C10 stream uses — shorthand component tags registered from components/
+func c10Engine(fsys fs.FS) vuego.Template { return vuego.NewFS(fsys, vuego.WithComponents()) }
 
 func c10Data(variant int) func() map[string]any {
 	return func() map[string]any {
@@ -87,7 +97,7 @@ func c10Data(variant int) func() map[string]any {
 
 func c10Progs() []c10Prog {
 	var out []c10Prog
-	for _, f := range []string{"attrs", "style", "loop", "chain", "inc", "once", "filters", "fm", "layouted", "slotpage", "fmset", "nest", "fail", "failinc", "failmid", "failtext", "failreq", "tpl", "vhtml", "map"} {
+	for _, f := range []string{"attrs", "style", "loop", "chain", "inc", "once", "filters", "fm", "layouted", "slotpage", "fmset", "nest", "fail", "failinc", "failmid", "failtext", "failreq", "tpl", "vhtml", "map", "tplhtml", "shorthand"} {
 		for v := 0; v < 4; v++ {
 			out = append(out, c10Prog{fmt.Sprintf("%s/%d", f, v), f + ".vuego", c10Data(v)})
 		}
@@ -137,9 +147,10 @@ func runC10(r *Run, replay *Case) {
 		"every ordered pair on one long-used engine vs a fresh engine, each program repeated 20x (map order), random sequences; caller data and cached DOM snapshotted; non-trivial = every comparison"
 	reps := 20
 	mfs := c10FS()
-	long := vuego.NewFS(mfs)
+	mk := c10Engine
+	long := mk(mfs)
 	fresh := func(p c10Prog, viaVue bool) (string, bool) {
-		out, e, _, _ := c10Render(vuego.NewFS(mfs), p, viaVue)
+		out, e, _, _ := c10Render(mk(mfs), p, viaVue)
 		return out, e
 	}
 	check := func(kind string, hist []string, p c10Prog, viaVue bool) {
@@ -160,6 +171,23 @@ func runC10(r *Run, replay *Case) {
 	}
 	if replay != nil && replay.Input["kind"] == "nofs" {
 		c10NoFS(r)
+		return
+	}
+	if replay != nil && replay.Input["kind"] == "pair-plain" {
+		mk = func(fsys fs.FS) vuego.Template { return vuego.NewFS(fsys) }
+		long = mk(mfs)
+		byName := map[string]c10Prog{}
+		for _, p := range progs {
+			byName[p.name] = p
+		}
+		var hist []string
+		if hs, ok := replay.Input["history"].([]any); ok {
+			for _, h := range hs {
+				hist = append(hist, fmt.Sprint(h))
+				c10Render(long, byName[fmt.Sprint(h)], replay.Input["vue"] == true)
+			}
+		}
+		check("pair-plain", hist, byName[fmt.Sprint(replay.Input["prog"])], replay.Input["vue"] == true)
 		return
 	}
 	if replay != nil {
@@ -211,7 +239,7 @@ func runC10(r *Run, replay *Case) {
 			continue
 		}
 		out, e, _, _ := c10Render(long, p, true)
-		pc := pageCase("history:"+p.name, c10Files, nil, p.page, p.data(), "kind:model-vs-long-used-engine")
+		pc := pageCase("history:"+p.name, c10Files, map[string]string{"ui-badge": "components/UiBadge.vuego"}, p.page, p.data(), "kind:model-vs-long-used-engine")
 		if e {
 			pc.Impl = map[string]any{"err": true}
 		} else {
@@ -227,6 +255,22 @@ func runC10(r *Run, replay *Case) {
 		}
 	}
 	r.Res.Exhaustive = true
+	// the same pairs on an engine WITHOUT registered component shorthands (a different path through preprocessing): both entry points
+	mk = func(fsys fs.FS) vuego.Template { return vuego.NewFS(fsys) }
+	long = mk(mfs)
+	for _, p1 := range progs {
+		for _, p2 := range progs {
+			if p1.page == "shorthand.vuego" || p2.page == "shorthand.vuego" {
+				continue
+			}
+			vue := p1.page != "layouted.vuego" && p1.page != "slotpage.vuego"
+			c10Render(long, p1, vue)
+			check("pair-plain", []string{p1.name}, p2, vue)
+			check("pair-plain", []string{p1.name, p2.name}, p2, false)
+		}
+	}
+	mk = c10Engine
+	long = mk(mfs)
 	n := 600
 	if r.Thorough() {
 		n = 20000
